@@ -8,7 +8,7 @@ import ECAgent.Environments as Envs
 from ECAgent.Core import Agent, AgentNotFoundError, DuplicateAgentError, Model
 from ECAgent.Environments import DiscreteWorld, GridWorld, LineWorld, SpaceWorld, PositionComponent
 from vf.engine import Violation, InvalidCase
-from vf.fixtures import CompA, CompB, CompC, CompF, check, sized_lists, wone_of
+from vf.fixtures import maybe_complete, with_done, CompA, CompB, CompC, CompF, check, sized_lists, wone_of
 
 PROPERTY = "C04"
 LEVEL = "fault_enumeration"
@@ -242,6 +242,7 @@ def run_case(case):
 
     compare("fresh environment")
     for k, op in enumerate(case["ops"]):
+        maybe_complete(case, k, model, labels)
         tag = f"after op {k} {op}"
         kind_op = op["op"]
         if kind_op == "add":
@@ -353,7 +354,7 @@ def strategy(tier):
         "ops": st.builds(lambda tail: [{"op": "add", "o": i, "pos": {"mode": "in", "f": [i, 2 * i, 3 * i]}} for i in range(n)] + tail,
                          sized_lists(big_op, 2, 10))}))
     small = _small(env, op)
-    return wone_of(*([small] * 14 + [large]))
+    return with_done(wone_of(*([small] * 14 + [large])))
 
 
 def _small(env, op):
